@@ -114,7 +114,14 @@ def show(n):
         return show_pat(n)
     if k == "Path":
         g = n.get("generics")
-        return n["path"] + ("::<" + ", ".join(norm(x) for x in g) + ">" if g else "")
+        base = n["path"]
+        if n.get("qself"):
+            segs = base.split("::")
+            if len(segs) > 1:
+                base = "<%s as %s>::%s" % (norm(n["qself"]), "::".join(segs[:-1]), segs[-1])
+            else:
+                base = "<%s>::%s" % (norm(n["qself"]), segs[-1])
+        return base + ("::<" + ", ".join(norm(x) for x in g) + ">" if g else "")
     if k == "Lit":
         return n["text"]
     if k == "MethodCall":
